@@ -292,13 +292,60 @@ func oddTypes(x interface{}, inArray bool, acc map[string]bool) {
 	}
 }
 
+// c09TallySpec: an action counts into a map (integers); after the next message a bindings
+// branch asks with a property variable which entry has reached a number.
+func c09TallySpec(c *sim.Ctx) *ref.Spec {
+	n := []interface{}{1.0, 2.0, 3.0}[c.Intn(3, "tallyn")]
+	count := &ref.Action{Ops: []ref.Op{{Kind: "set", K: "tally", V: map[string]interface{}{"alice": 2.0, "bob": 1.0, "carol": 2.5}}}}
+	emit := func(e float64) *ref.Action {
+		return &ref.Action{Ops: []ref.Op{{Kind: "emit", V: map[string]interface{}{"e": e, "to": "x"}}, {Kind: "emitb", K: "?w"}, {Kind: "del", K: "?w"}}}
+	}
+	return &ref.Spec{Nodes: map[string]*ref.Node{
+		"n0":    {HasBr: true, Type: "message", Branches: []*ref.Branch{{Target: "count"}}},
+		"count": {Action: count, HasBr: true, Type: "bindings", Branches: []*ref.Branch{{Target: "w"}}},
+		"w":     {HasBr: true, Type: "message", Branches: []*ref.Branch{{Target: "check"}}},
+		"check": {HasBr: true, Type: "bindings", Branches: []*ref.Branch{{HasPat: true, Pattern: map[string]interface{}{"tally": map[string]interface{}{"?w": n}}, Target: "ok"}, {Target: "over"}}},
+		"ok":    {Action: emit(1), HasBr: true, Type: "bindings", Branches: []*ref.Branch{{Target: "n0"}}},
+		"over":  {Action: emit(2), HasBr: true, Type: "bindings", Branches: []*ref.Branch{{Target: "n0"}}},
+	}}
+}
+
+// c09FreshErrSpec: a machine without any bindings fails at its first message and rests at
+// the error node with its diagnostics (lastBindings is an empty object); the next message
+// makes a branch look at them.
+func c09FreshErrSpec(c *sim.Ctx) *ref.Spec {
+	boom := &ref.Action{Ops: []ref.Op{{Kind: "throw"}}}
+	if c.Bool("febadret") {
+		boom = &ref.Action{Ops: []ref.Op{{Kind: "retbad"}}}
+	}
+	emit := func(e float64) *ref.Action {
+		return &ref.Action{Ops: []ref.Op{{Kind: "emit", V: map[string]interface{}{"e": e, "to": "x"}}, {Kind: "emitb", K: "lastBindings"}, {Kind: "clear"}}}
+	}
+	var look interface{} = map[string]interface{}{"lastBindings": map[string]interface{}{}}
+	if c.Bool("felooknull") {
+		look = map[string]interface{}{"lastBindings": nil}
+	}
+	return &ref.Spec{Nodes: map[string]*ref.Node{
+		"n0":    {HasBr: true, Type: "message", Branches: []*ref.Branch{{Target: "boom"}}},
+		"boom":  {Action: boom, HasBr: true, Type: "bindings", Branches: []*ref.Branch{{Target: "n0"}}},
+		"error": {HasBr: true, Type: "message", Branches: []*ref.Branch{{Target: "look"}}},
+		"look":  {HasBr: true, Type: "bindings", Branches: []*ref.Branch{{HasPat: true, Pattern: look, Target: "hit"}, {Target: "miss"}}},
+		"hit":   {Action: emit(1), HasBr: true, Type: "bindings", Branches: []*ref.Branch{{Target: "n0"}}},
+		"miss":  {Action: emit(2), HasBr: true, Type: "bindings", Branches: []*ref.Branch{{Target: "n0"}}},
+	}}
+}
+
 func runC09(c *sim.Ctx, t *testing.T) {
 	c.PermuteOff = true
 	sim.Install(c)
 	defer sim.Uninstall()
 	var gs *ref.Spec
 	genExt = false
-	switch c.Intn(10, "speckind") {
+	switch c.Intn(12, "speckind") {
+	case 11:
+		gs = c09FreshErrSpec(c)
+	case 10:
+		gs = c09TallySpec(c)
 	case 9:
 		gs = c09GuardFailSpec(c)
 	case 8:
